@@ -31,10 +31,10 @@ class Verdict:
 
 
 class _Coll:
-    __slots__ = ("closer", "kind", "count")
+    __slots__ = ("closer", "kind", "count", "bad", "keys")
 
     def __init__(self, closer, kind):
-        self.closer, self.kind, self.count = closer, kind, 0
+        self.closer, self.kind, self.count, self.bad, self.keys = closer, kind, 0, False, set()
 
 
 class _Prefix:
@@ -48,19 +48,27 @@ def scan(text: str) -> Verdict:
     stack = []
     i, n = 0, len(text)
 
-    def form_done():
+    def form_done(tok=None):
         """a complete form was just read: satisfy pending prefixes (innermost first), then count it as
-        an element of the enclosing collection"""
+        an element of the enclosing collection (tok: the form's text when it is a plain atom)"""
         while stack and isinstance(stack[-1], _Prefix):
             top = stack[-1]
             top.owed -= 1
             if top.owed > 0:
                 return
             stack.pop()
+            tok = None
             if top.discard:
                 return      # a discarded form is not a form for whatever encloses it
         if stack and isinstance(stack[-1], _Coll):
-            stack[-1].count += 1
+            top = stack[-1]
+            if top.kind == "rcond" and top.count % 2 == 0 and not (tok and tok.startswith(":") and len(tok) > 1):
+                top.bad = True      # reader-conditional features must be keywords
+            if top.kind == "rcond" and top.count % 2 == 0:
+                if tok in top.keys:
+                    top.bad = True  # ... and distinct
+                top.keys.add(tok)
+            top.count += 1
 
     while i < n:
         c = text[i]
@@ -105,6 +113,8 @@ def scan(text: str) -> Verdict:
             top = stack.pop()
             if top.kind == "map" and top.count % 2:
                 return Verdict("unknown", "map literal with an odd number of forms", i)
+            if top.kind == "rcond" and (top.count % 2 or top.bad):
+                return Verdict("unknown", "malformed reader conditional", i)
             i += 1
             form_done()
             continue
@@ -154,6 +164,11 @@ def scan(text: str) -> Verdict:
                 stack.append(_Prefix(1, discard=(d == "_")))
                 i += 2
                 continue
+            if text[i + 1:i + 3] == "?(":
+                # reader conditional #?(:feature form ...): input ending inside it is incomplete like any list
+                stack.append(_Coll(")", "rcond"))
+                i += 3
+                continue
             return Verdict("unknown", "dispatch #" + d, i)
         # plain atom
         j = i
@@ -163,7 +178,7 @@ def scan(text: str) -> Verdict:
         if not _plain_atom(tok):
             return Verdict("unknown", f"atom {tok!r}", i)
         i = j
-        form_done()
+        form_done(tok)
     if stack:
         top = stack[-1]
         if isinstance(top, _Prefix):
